@@ -155,14 +155,15 @@ impl AgentRun {
                     bytes[n - 3] ^= 0x40; // inside the HMAC value
                 }
                 let from = addr_of(p[5]);
-                match Message::from_bytes(&bytes) {
+                let r: String = match Message::from_bytes(&bytes) {
                     Err(_) => "noparse".into(),
                     Ok(m) => match self.agent.handle_stun(m, from) {
                         HandleStunReply::StunResponse(m) => format!("resp:{}", tid_hex(m.transaction_id())),
                         HandleStunReply::IncomingStun(m) => format!("incoming:{}", tid_hex(m.transaction_id())),
                         HandleStunReply::Drop => "drop".into(),
                     },
-                }
+                };
+                format!("{} hb={}", r, hex(&bytes))
             }
             "P" => {
                 let now = self.at(p[1].parse().unwrap());
@@ -325,7 +326,8 @@ pub fn history(rng: &mut Rng, len: usize, tr: &str, timing: bool) -> String {
                 let ig = if timing { "n".to_string() } else { integ(g.rng) };
                 let to = ADDRS[g.rng.below(4) as usize];
                 let now = g.next_now();
-                let n = g.rng.below(3) as usize * 5;
+                // message contents: empty, short, or anything up to the SOFTWARE limit
+                let n = if g.rng.chance(1, 6) { 1 + g.rng.below(700) as usize } else { g.rng.below(3) as usize * 5 };
                 let payload = hex_or_dash(&g.rng.bytes(n));
                 if cls == 0 {
                     g.sent_keys.push((ti, ig.clone()));
